@@ -344,6 +344,7 @@ fn universe(section: &str, fs: &FsSpec, loaded: &Loaded, entry_key: u64) -> Vec<
                 ));
             }
             out.push(("bom *".into(), vec![Fault::new(FaultKind::Bom, Sel::All)]));
+            out.push(("cr *".into(), vec![Fault::new(FaultKind::Cr, Sel::All)]));
             for (fi, f) in loaded.files.iter().enumerate() {
                 let text = &fs.files[f];
                 out.push((format!("empty {f}"), vec![Fault::new(FaultKind::Empty, file(f))]));
@@ -356,6 +357,18 @@ fn universe(section: &str, fs: &FsSpec, loaded: &Loaded, entry_key: u64) -> Vec<
                         vec![Fault::new(FaultKind::Nul, file(f)).ab(*o as u64, 0)],
                     ));
                     let _ = n;
+                }
+                out.push((format!("cr {f}"), vec![Fault::new(FaultKind::Cr, file(f))]));
+                for (n, o) in [0usize, text.len() / 4, text.len() / 2, text.len()].iter().enumerate() {
+                    for c in 0..6u64 {
+                        if (n as u64 + c + fi as u64) % 3 != 0 {
+                            continue;
+                        }
+                        out.push((
+                            format!("control#{c} {f}@{o}"),
+                            vec![Fault::new(FaultKind::Control, file(f)).ab(*o as u64, c)],
+                        ));
+                    }
                 }
                 if let Some(o) = starts.get(starts.len() / 2) {
                     out.push((
